@@ -24,8 +24,8 @@ static std::vector<Cfg> all_cfgs()
 	return v;
 }
 
-enum Ev { E_S, E_H, E_IA, E_B2, E_IT, E_T, E_IR, E_B3, E_R, E_N };
-static const char *EVN[] = { "send", "hb", "in-app", "batch2", "in-testreq", "testreq", "in-resendreq", "batch3", "restart" };
+enum Ev { E_S, E_H, E_IA, E_B2, E_IT, E_T, E_IR, E_B3, E_R, E_IRA, E_IRD, E_N };
+static const char *EVN[] = { "send", "hb", "in-app", "batch2", "in-testreq", "testreq", "in-resendreq", "batch3", "restart", "in-resendreq-ahead", "in-resendreq-possdup-low" };
 
 struct Model {
 	Cfg cfg;
@@ -122,6 +122,11 @@ struct Model {
 			case E_IA: st.outcome = w.feed(w.inbound("D", peer_next, World::nos_body("P" + std::to_string(i)))) ? "processed" : "rejected"; break;
 			case E_IT: st.outcome = w.feed(w.inbound("1", peer_next, std::string("112=X") + SOH)) ? "processed" : "rejected"; break;
 			case E_IR: st.outcome = w.feed(w.inbound("2", peer_next, std::string("7=1") + SOH + "16=0" + SOH)) ? "processed" : "rejected"; break;
+			// a ResendRequest that does not carry the expected number is still acted on: two numbers ahead of sequence, and a
+			// PossDup copy one below the expected number
+			case E_IRA: st.outcome = w.feed(w.inbound("2", peer_next + 2, std::string("7=1") + SOH + "16=0" + SOH)) ? "processed" : "rejected"; break;
+			case E_IRD: if (peer_next < 2) { st.enabled = false; break; }
+				st.outcome = w.feed(w.inbound("2", peer_next - 1, std::string("7=1") + SOH + "16=0" + SOH, std::string("43=Y") + SOH + "122=20231114-22:13:20.000" + SOH)) ? "processed" : "rejected"; break;
 			case E_R:
 				if (wc.pk != P_FILE && wc.acceptor) { st.enabled = false; break; }	// an acceptor's memory store dies with its session (by design)
 				if (wc.pk == P_NONE) { st.enabled = false; break; }
